@@ -394,6 +394,14 @@ def judge_component(cx, op, xs, res, kind):
   if any(math.isinf(o) for o in out):
     fail(KEY_D12B if cls == 'resolution' else 'nonfinite-output', 'infinite output %r' % jl(out))
     return
+  # an OBSERVED value (a finite label) is mapped to a number: a component may leave a missing entry missing (the
+  # infeasible component fills those in), and DetectOutliers marks outliers as missing on purpose, but no other
+  # component may turn a finite label into NaN (constants and arrays with missing entries included)
+  if op not in ('detect',) and cls == 'ok':
+    lost = [i for i, (x, o) in enumerate(zip(xs, out)) if math.isfinite(x) and o != o]
+    if lost and not (op == 'zscore' and len(set(x for x in xs if math.isfinite(x))) == 1):
+      fail('finite-label-becomes-nan:' + op, 'the finite label %r (position %d) is mapped to NaN: %r' % (xs[lost[0]], lost[0], jl(out)))
+      return
   msg = judge_order(xs, out, strict=False)
   if msg is not None:
     rv = LAST_REVERSAL[0]
@@ -489,8 +497,10 @@ def admissible(op, xs):
     return len(xs) == 1 or len(fin) >= 1
   if op in ('detect', 'zscore', 'normalize'):
     return len(fin) >= 1
-  if op in ('gauss', 'gauss_rank'):
-    return len(fin) == len(xs)        # used after the infeasible warper only
+  if op == 'gauss':
+    return len(fin) >= 1              # on its own: missing entries stay missing, observed values get numbers
+  if op == 'gauss_rank':
+    return len(fin) == len(xs)        # the rank option propagates NaN through scipy's rankdata (not judged)
   return True
 
 
@@ -553,8 +563,12 @@ def tie_cases(cx, cases):
       # equal, compared above) is meaningful
       continue
     if float32 and not m['short']:
-      if all(v == v for v in mv):
-        mv = real.gauss_g(mv)
+      if any(v == v for v in mv):
+        gi = [i for i, v in enumerate(mv) if v == v]
+        gv = real.gauss_g([mv[i] for i in gi])
+        mv = list(mv)
+        for i, g in zip(gi, gv):
+          mv[i] = g
       ok = close(rv, mv, RTOL32)
     else:
       ok = close(rv, mv, RTOL)
